@@ -123,6 +123,9 @@ func (h *Handler) findOrCreate(clientID []byte, mac net.HardwareAddr, name strin
 
 func (h *Handler) delete(lease *Lease) {
 	delete(h.table, string(lease.ClientID))
+	if lease.Addr.IP.IsValid() {
+		h.saveConfig(h.filename) // the dropped binding must not come back after a restart
+	}
 }
 
 // available returns true if ip can be handed out to lease: it must be a host address of the lease subnet, not a
